@@ -77,6 +77,31 @@ pub fn random_spec(r: &mut Rng, max_len: usize) -> HelloSpec {
 }
 
 /// Encode a ClientHello as one TLS record. Returns the record bytes (5-byte header included).
+/// The smallest ClientHellos a parser accepts: no session id, no extension block, one cipher suite or none, null
+/// compression or an empty list - 47..50 bytes on the wire, below what a conforming client sends but well-formed
+pub fn tiny_hello(r: &mut Rng) -> Vec<u8> {
+    let mut body = Vec::new();
+    put16(&mut body, *r.pick(&[0x0303usize, 0x0301]));
+    body.extend_from_slice(&r.bytes(32));
+    body.push(0);
+    if r.chance(1, 2) {
+        put16(&mut body, 2);
+        put16(&mut body, *r.pick(&CIPHERS) as usize);
+    } else {
+        put16(&mut body, 0);
+    }
+    if r.chance(1, 2) {
+        body.push(1);
+        body.push(0);
+    } else {
+        body.push(0);
+    }
+    let mut hs = vec![1u8, 0];
+    put16(&mut hs, body.len());
+    hs.extend_from_slice(&body);
+    record(0x16, *r.pick(&[0x0301u16, 0x0303]), &hs)
+}
+
 pub fn client_hello(r: &mut Rng, s: &HelloSpec) -> Vec<u8> {
     let mut body = Vec::new();
     put16(&mut body, s.legacy_version as usize);
